@@ -13,7 +13,10 @@ from drive import Result, run_mpi
 RULE = ("Hypothesis generates a model (N<=4 quick, <=5 thorough), a parallel configuration (P in {1,2,3,4,5,7,8} ranks (16 thorough), "
         "T in {1,2,4,8,16} OpenMP threads, P*T<=16 (32 thorough)), a seed and amplitude for the POMEROL_VERIF delay hook inside the dispatch loop (so the "
         "job-to-rank assignment varies), a stand-alone TwoParticleGF::compute (clear on/off, 0-200 frequencies) and a container computation "
-        "(1-5 components incl. vanishing ones, split or unsplit, clear on/off, frequency list).  The scenario is executed under mpiexec "
+        "(1-5 components incl. vanishing ones, split or unsplit, clear on/off, frequency list); in a third of the cases the public "
+        "precision knobs of the two-particle objects (ReduceResonanceTolerance, CoefficientTolerance, MultiTermCoefficientTolerance) are set to "
+        "non-default values, and the model families include Hubbard clusters with parameters over many decades (level splittings "
+        "down to 1e-13).  The scenario is executed under mpiexec "
         "and compared with the same scenario on one rank / one thread without delays: on every rank the eigenvalues and eigenvector "
         "matrices must be identical across ranks (and eigenvalues equal the reference to 1e-10*scale), G values and chi evaluated from "
         "the term representation must equal the reference on every rank on which the interface returns the element; frequency tables are "
@@ -27,15 +30,19 @@ CONFIG = {
     "quick": {"flavours": ["real", "complex"], "shards": 4, "examples": 60, "min_nontrivial": 5, "budget_s": 80},
     "thorough": {"flavours": ["real", "complex"], "shards": 6, "examples": 400, "min_nontrivial": 500, "budget_s": 3300},
 }
-REQUIRED_CLASSES = {"quick": ["P>=2", "split", "nosplit"],
-                    "thorough": ["P>=2", "split", "nosplit", "T>=2", "P>components", "components>P", "vanishing-component", "delays", "P=16"]}
+REQUIRED_CLASSES = {"quick": ["P>=2", "split", "nosplit", "splitting-below-default-tolerance"],
+                    "thorough": ["P>=2", "split", "nosplit", "T>=2", "P>components", "components>P", "vanishing-component", "delays", "P=16", "splitting-below-default-tolerance"]}
 TIMING_PROPERTY = True
 
 
 @st.composite
 def strategy_(draw, tier):
     mm = 4 if tier == "quick" else 5
-    mdl = draw(gen.any_model_st(max_modes=mm, beta_lo=0.5, beta_hi=30.0, symm_modes=("default", "default", "ignore", "custom")))
+    mdl = draw(gen.any_model_st(max_modes=mm, beta_lo=0.5, beta_hi=30.0, symm_modes=("default", "default", "ignore", "custom"), wide=True))
+    near = draw(st.integers(0, 5)) == 0
+    if near:
+        # levels split by less than (or about) the default resonance tolerance, examined with a finer user tolerance
+        mdl = draw(gen.special_model_st(max_modes=4, beta_lo=0.5, beta_hi=30.0, symm_modes=("default", "ignore"), tiny_field=True))
     N = M.n_modes(mdl["sites"])
     cap = 16 if tier == "quick" else 32
     P = draw(st.sampled_from([1, 2, 2, 3, 3, 4, 5, 7, 8] + ([16, 11] if tier == "thorough" else [])))
@@ -45,7 +52,12 @@ def strategy_(draw, tier):
     nfreq = draw(st.sampled_from([0, 1, 3, 60, 200]))
     triples = draw(st.lists(gen.triple_st(-4, 4), min_size=nfreq, max_size=nfreq)) if nfreq <= 3 else \
         [[a, b, c] for a in range(-3, 3) for b in range(-3, 3) for c in range(-3, 3)][:nfreq]
-    return {"model": mdl, "P": P, "T": T, "delay_seed": draw(st.integers(1, 10 ** 6)), "delay_us": draw(st.sampled_from([0, 300, 3000])),
+    # the public precision knobs of the two-particle objects (defaults 1e-8 / 1e-16 / 1e-5) are part of the configuration
+    tol2 = draw(st.one_of(st.none(), st.none(), st.tuples(st.sampled_from([1e-12, 1e-10, 1e-6, 1e-4]), st.sampled_from([1e-16, 0.0, 1e-12]),
+                                                         st.sampled_from([1e-5, 1e-8]))))
+    if near:
+        tol2 = (draw(st.sampled_from([1e-12, 1e-10, 1e-14])), draw(st.sampled_from([1e-16, 0.0])), 1e-5)
+    return {"model": mdl, "tol2": list(tol2) if tol2 else None, "P": P, "T": T, "delay_seed": draw(st.integers(1, 10 ** 6)), "delay_us": draw(st.sampled_from([0, 300, 3000])),
             "sa": list(draw(gen.chi_quad_st(N))), "sa_clear": draw(st.integers(0, 1)), "keys": [list(k) for k in keys],
             "split": draw(st.integers(0, 1)), "clear": draw(st.integers(0, 1)), "triples": triples,
             "eval": draw(st.lists(gen.triple_st(-3, 3), min_size=1, max_size=3))}
@@ -73,6 +85,8 @@ def scenario(case):
     for i in range(min(N, 3)):
         for j in range(min(N, 3)):
             sc.add("gf ct %d %d n 3 0 -1 4" % (i, j), ("g", i, j))
+    if case.get("tol2"):
+        sc.add("tol2 %r %r %r" % tuple(case["tol2"]))
     fa = freq_args(beta, case["triples"])
     ev = "mats %d %s" % (len(case["eval"]), " ".join("%d %d %d" % tuple(t) for t in case["eval"]))
     sc.add("chi SA ct %d %d %d %d clear %d table %s" % (tuple(case["sa"]) + (case["sa_clear"], fa)), "sa")
@@ -99,6 +113,12 @@ def execute(case, ctx):
         classes.append("components>P")
     if case["delay_us"]:
         classes.append("delays")
+    if case.get("tol2"):
+        classes.append("user-tolerances")
+        if case["tol2"][0] < 1e-8 and any(t.get("k") == "term" and 0 < abs(t["v"][0]) < 1e-7 for t in mdl["terms"]):
+            classes.append("splitting-below-default-tolerance")
+    if mdl.get("family"):
+        classes.append("family-" + mdl["family"])
     sc = scenario(case)
     FLOOR[0] = chi_floor(mdl["beta"], M.n_modes(mdl["sites"]))
     flavour = "complex" if mdl["cplx"] else "real"
